@@ -51,7 +51,7 @@ pub fn obs(outcome: &str, msg: &str) -> ! {
     std::process::exit(0)
 }
 
-/// lifecycle: who=original|clone action=drop|verify|report|noverify panicking clones=N other_thread recorded unmet helper
+/// lifecycle: who=original|clone action=drop|verify|report|noverify panicking clones=N other_thread recorded unmet helper chain_clone
 fn lifecycle(p: &HashMap<String, String>) {
     std::panic::set_hook(Box::new(|_| {}));
     let unmet = flag(p, "unmet");
@@ -76,6 +76,11 @@ fn lifecycle(p: &HashMap<String, String>) {
         // default-method delegation on the original creates its internal helper clone
         assert_eq!(u.prov(), 7);
     }
+    if flag(p, "chain_clone") {
+        // a clone parked in the instance's own value chain (what `answers(&|u| u.make_ref(u.clone()))` does): teardown releases
+        // the chain before it counts the live clones (C18 / C09)
+        let _parked: &Unimock = u.make_ref(u.clone());
+    }
     let clones: Vec<Unimock> = (0..num(p, "clones")).map(|_| u.clone()).collect();
     let who_clone = p.get("who").map(|s| s == "clone").unwrap_or(false);
     let action = p.get("action").cloned().unwrap_or_else(|| "drop".into());
@@ -84,8 +89,23 @@ fn lifecycle(p: &HashMap<String, String>) {
     let act = move || {
         let subject = subject;
         if panicking {
-            // the subject is dropped by unwinding
-            let _guard = subject;
+            // the subject is torn down while the thread unwinds: dropped by unwinding, or verified / reported explicitly from a
+            // fixture's Drop impl (C11: never a second panic)
+            struct Fixture(Option<Unimock>, String);
+            impl Drop for Fixture {
+                fn drop(&mut self) {
+                    let subject = self.0.take().unwrap();
+                    match self.1.as_str() {
+                        "verify" => subject.verify(),
+                        "noverify" => drop(subject.no_verify_in_drop()),
+                        "report" => {
+                            let _ = std::process::Termination::report(subject);
+                        }
+                        _ => drop(subject),
+                    }
+                }
+            }
+            let _guard = Fixture(Some(subject), action.clone());
             panic!("user panic (first)");
         }
         match action.as_str() {
@@ -126,6 +146,7 @@ fn lifecycle(p: &HashMap<String, String>) {
     }
 }
 
+//@ft-begin
 // ---- fall-through scenarios (C07 / C15 / C16): trait shapes {default body?} x {unmock function?}
 #[unimock(api = T00Mock)]
 trait T00 {
@@ -187,6 +208,8 @@ fn fallthrough(p: &HashMap<String, String>) {
         _ => fallthrough_case!(p, T11Mock, T11),
     }
 }
+
+//@ft-end
 
 mod gen;
 
